@@ -96,7 +96,7 @@ func isPointerFree(t types.Type, seen map[string]bool) bool {
 // top=true unfolds one level even if the type has its own DeepCopy method.
 func (f *Frame) copyRel(t types.Type, a, b *Term, old, cur *State, top bool, depth int) *Term {
 	t = f.subst(t)
-	if depth > 6 {
+	if depth > 10 {
 		panic(unsupported("copy relation nested too deeply at " + t.String()))
 	}
 	if isPointerFree(t, map[string]bool{}) {
